@@ -598,6 +598,11 @@ pub fn into_u16_alt<X: Payload>(x: X) -> u16 {
     (x.a() as u16).wrapping_add(1000)
 }
 
+pub fn into_t_alt<X: Payload>(x: X) -> T {
+    ev(format!("m_into_t_alt:{}", pid(&x)));
+    T::mk(8, 88, x.a())
+}
+
 pub fn into_w_alt<X: Payload>(x: X) -> W {
     ev(format!("m_into_w_alt:{}", pid(&x)));
     W(x.a() as i32 + 5000)
